@@ -28,6 +28,7 @@ What the code does (anchors):
 * `File.auto_update_timestamps = b` is a plain assignment (`setAuto`); closing and re-opening keeps
   every attribute and takes the switch from the `open` call (`reopen`);
 * deleting an entity removes it and what it owns, nothing else (`delete`);
+* `create_*(copy_from=x)` makes an entity that carries the stored time stamps of `x` (`copy`);
 * the getters `created_at` / `updated_at` are `str_to_time(attribute)`, `None` when missing.
 -/
 namespace Nix.Stamps
@@ -84,6 +85,11 @@ inductive Op where
   `array.dimensions[k].unit = …`; for `DimensionLink` — `dim.label = …` / `dim.unit = …` on a dimension
   that is linked to a data object — `e` is that linked data object, whose attribute is written) -/
   | call (e : Nat) (via : Option Cls) (m : Mem) (o : Outcome)
+  /-- `owner.create_<kind>(name, copy_from=src)`: a copy of the live entity `src` inside the live owner
+  `parent` (`H5Group.copy` duplicates the HDF5 object with all its attributes: the copy carries the
+  time stamps of its source, whether or not it keeps the id); leaf kinds only (arrays, frames,
+  properties: what they own is no entity) -/
+  | copy (src : Nat) (parent : Nat)
   | forceCreated (e : Nat) (t : TimeArg)
   | forceUpdated (e : Nat) (t : TimeArg)
   | setAuto (b : Bool)
@@ -168,6 +174,15 @@ def step (s : State) : Op → State × Res
           | .ok v =>
             ({ s with ents := s.ents ++ [{ kind := k, parent := p, alive := true, created := some v,
                                            updated := some v }] }, .done)
+  | .copy src p =>
+    match aliveAt s src, aliveAt s p with
+    | some se, some pe =>
+      if !validParent se.kind pe.kind ||
+         !(se.kind == .dataArray || se.kind == .dataFrame || se.kind == .property) then (s, .bad)
+      else
+        ({ s with ents := s.ents ++ [{ kind := se.kind, parent := p, alive := true,
+                                       created := se.created, updated := se.updated }] }, .done)
+    | _, _ => (s, .bad)
   | .call e via m o =>
     match aliveAt s e with
     | none => (s, .bad)
@@ -282,6 +297,7 @@ def observe (s : State) (i : Nat) (a : StampAttr) : Option (Except Err (Option I
 /-- the object whose stored time stamps an operation may write (none for session operations) -/
 def Op.target (s : State) : Op → Option Nat
   | .create _ _ _ => some s.ents.length
+  | .copy _ _ => some s.ents.length
   | .call e _ _ o =>
     match aliveAt s e with
     | none => none
